@@ -312,6 +312,22 @@ func (n *Node) Certify(p *Proposal, proposer int, signers []int, round uint64) (
 		BlockHash: p.Block.BlockHeader.Hash, ProposerKey: BLS(proposer).PublicKey().Bytes()}, signers)
 }
 
+var (
+	pubIndexOnce sync.Once
+	pubIndex     map[string]crypto.PrivateKeyI
+)
+
+// keyForPubFast is KeyForPub with the 64 public keys derived once per process.
+func keyForPubFast(pub []byte) crypto.PrivateKeyI {
+	pubIndexOnce.Do(func() {
+		pubIndex = map[string]crypto.PrivateKeyI{}
+		for i := 0; i < 64; i++ {
+			pubIndex[string(BLS(i).PublicKey().Bytes())] = BLS(i)
+		}
+	})
+	return pubIndex[string(pub)]
+}
+
 // SignQC signs qc.SignBytes() with the listed BLS key indices (nil = every member of vs)
 // and attaches the aggregate with its true bitmap. qc is modified and returned.
 func SignQC(vs lib.ValidatorSet, qc *lib.QuorumCertificate, signers []int) (*lib.QuorumCertificate, lib.ErrorI) {
@@ -325,7 +341,7 @@ func SignQC(vs lib.ValidatorSet, qc *lib.QuorumCertificate, signers []int) (*lib
 		if signers != nil && !want[string(v.PublicKey)] {
 			continue
 		}
-		k := KeyForPub(v.PublicKey)
+		k := keyForPubFast(v.PublicKey)
 		if k == nil {
 			return nil, lib.NewError(lib.CodeInvalidArgument, lib.ConsensusModule, "harness: no private key for committee member")
 		}
@@ -601,4 +617,6 @@ func (m *MockRC) Transaction(_ uint64, tx lib.TransactionI) (*string, lib.ErrorI
 var _ lib.RCManagerI = (*MockRC)(nil)
 
 // Describe is used in error messages.
-func (n *Node) String() string { return fmt.Sprintf("node %s (key %d, height %d)", n.Name, n.Key, n.Height()) }
+func (n *Node) String() string {
+	return fmt.Sprintf("node %s (key %d, height %d)", n.Name, n.Key, n.Height())
+}
